@@ -4,7 +4,8 @@
 (* instance is a kind of NodeSchema plus, for every slot, what it holds:          *)
 (*   tkn / node / value / position : 0 absent, 1 present                          *)
 (*   list    : its length 0 .. MaxLen                                             *)
-(*   tknlist : 0 no separators, 1 separators between items, 2 also a trailing one *)
+(*   tknlist : 0 no separators, 1 separators between items, 2 also a trailing one, *)
+(*             3 one separator fewer than needed (the rest are defaults)           *)
 (* Phase "choose" builds the instance slot by slot (at most Budget slots may      *)
 (* deviate from the baseline all-present / all-absent; Budget >= number of slots  *)
 (* enumerates every subset); phase "walk" processes the slots in schema order,    *)
@@ -36,13 +37,14 @@ Relevant(k, i) == CASE Mode = "traverse" -> Typ(k, i) \in {"node", "list"}
 
 Dom(b, k, i) == IF ~Relevant(k, i) THEN {BaseVal(b, k, i)}
                 ELSE CASE Typ(k, i) = "list"    -> 0 .. MaxLen
-                       [] Typ(k, i) = "tknlist" -> {0, 1, 2}
+                       [] Typ(k, i) = "tknlist" -> {0, 1, 2, 3}
                        [] OTHER                 -> {0, 1}
 
 \* number of separators actually present, given the choice c and the list length L
 SepCount(c, L) == CASE c = 0 -> 0
                     [] c = 1 -> IF L = 0 THEN 0 ELSE L - 1
                     [] c = 2 -> L
+                    [] c = 3 -> IF L >= 2 THEN L - 2 ELSE 0
 
 \* what the instance concretely holds in slot i (what the harness builds)
 Holds(k, p, i) == IF Typ(k, i) = "tknlist" THEN SepCount(p[i], p[i - 1]) ELSE p[i]
